@@ -848,7 +848,7 @@ package server
 //@ on_panic ensures[C19] one_record_even_when_the_handler_aborts: count(Log(_, _, _)) == 1
 //@ ensures[C19] forwards_once_before_logging: count(Forward(_, _, _)) == 1 && first(Forward(_, _, _), Log(_, _, _))
 //@ ensures[C19] status_and_size_are_what_the_writer_recorded: emitted(AttrInt("status", writer.statusCode)) && emitted(AttrInt("resp_content_length", writer.bytesWritten))
-//@ ensures[C19] request_line_attributes: emitted(AttrStr("method", r.Method)) && emitted(AttrStr("host", r.Host)) && emitted(AttrStr("path", r.URL.Path)) && emitted(AttrStr("query", r.URL.RawQuery)) && emitted(AttrStr("request_id", hdrGet(r.Header, "X-Request-ID")))
+//@ ensures[C19] request_line_attributes: emitted(AttrStr("method", final(r).Method)) && emitted(AttrStr("host", final(r).Host)) && emitted(AttrStr("path", final(r).URL.Path)) && emitted(AttrStr("query", final(r).URL.RawQuery)) && emitted(AttrStr("request_id", hdrGet(final(r).Header, "X-Request-ID")))
 //@ ensures[C19] service_and_target_from_the_shared_context: emitted(AttrStr("service", loggingRequestContext.Service)) && emitted(AttrStr("target", loggingRequestContext.Target))
 //@ ensures[C19] context_shared_with_the_chain_before_it_runs: all(Forward, ctxtyp(as($2, `*net/http.Request`), LOGKEY) == typeid(*loggingRequestContext) && ctxval(as($2, `*net/http.Request`), LOGKEY) == ref(loggingRequestContext$ptr) && $1 == ref(writer))
 //@ ensures[C19] scheme_follows_the_connection: (r.TLS != nil ==> emitted(AttrStr("scheme", "https")) && emitted(AttrInt("port", old(h.httpsPort)))) && (r.TLS == nil ==> emitted(AttrStr("scheme", "http")) && emitted(AttrInt("port", old(h.httpPort))))
